@@ -1,12 +1,15 @@
 // C17 harness: runtime/syncutils StarvingMutex, DAGMutex, Counter, Stack.
 //
 // scripted  - scripted arrival orders (M2): every thread of a case is a goroutine that runs its script one operation
-//             at a time, each operation only when the arrival order releases it. After every release the harness waits
-//             until ALL released operations have returned or are parked in a sync.Cond (decided from the ticket counters
-//             of the condition variables through the add-only `verif` accessors, no timing assumption), records the
-//             lock state + per-thread progress, and judges it with a Go-side oracle. The cases go to Coq.
+//
+//	at a time, each operation only when the arrival order releases it. After every release the harness waits
+//	until ALL released operations have returned or are parked in a sync.Cond (decided from the ticket counters
+//	of the condition variables through the add-only `verif` accessors, no timing assumption), records the
+//	lock state + per-thread progress, and judges it with a Go-side oracle. The cases go to Coq.
+//
 // free      - free-running contention (M3) with holder-set monitors and a stall watchdog; directed misuse-under-recover
-//             and the PopOrWait yield-hook window (M4).
+//
+//	and the PopOrWait yield-hook window (M4).
 package main
 
 import (
@@ -19,10 +22,24 @@ import (
 	"sync/atomic"
 	"time"
 
+	"github.com/iotaledger/hive.go/runtime/debug"
 	"github.com/iotaledger/hive.go/runtime/syncutils"
 
 	"verif/harness/vx"
 )
+
+// debugMode: the whole process runs with debug.SetEnabled(true) (runtime/debug deadlock-detection mode; the flag is
+// process-global, so the two modes are two harness invocations). The lock semantics must not depend on it: the same
+// scenarios, the same oracle and the same (mode-independent) Coq model judge both modes.
+var debugMode bool
+
+// stdoutCapture: in debug mode everything the library prints (the deadlock reports) is collected here
+var stdoutCapture *capture
+
+// abandoned: scripted Lock/RLock/wait calls that were still parked when their scenario ended (misuse and cyclic
+// scenarios); their goroutines stay parked for the rest of the process, and in debug mode the detector rightly reports
+// them once the process is older than debug.DeadlockDetectionTimeout
+var abandoned int
 
 // ---------- operations ----------
 
@@ -79,6 +96,8 @@ type scenario struct {
 	// Balanced: every thread's script releases what it acquired, acquires (dag) along the entity order, no misuse:
 	// then no operation may stay parked at the end.
 	Balanced bool `json:"balanced"`
+	// Debug: the case ran with debug.SetEnabled(true) (part of the failing input)
+	Debug bool `json:"debug,omitempty"`
 }
 
 // ---------- worlds ----------
@@ -529,6 +548,9 @@ func runScenario(sc *scenario) (seen [][]int64, fail string) {
 			break
 		}
 	}
+	for u := 0; u < n; u++ {
+		abandoned += released[u] - int(done[u].Load())
+	}
 	if fail == "" && sc.Balanced {
 		for u := 0; u < n; u++ {
 			if int(done[u].Load()) != len(sc.Scripts[u]) {
@@ -559,12 +581,19 @@ func emit(cf *vx.CasesFile, st *vx.Stats, sc *scenario) {
 		st.Count("skipped-after-stalls")
 		return
 	}
+	sc.Debug = debugMode
 	seen, fail := runScenario(sc)
 	if strings.Contains(fail, "neither returned nor parked on a condition variable within") {
 		stalls++
 	}
 	cf.Add(sc.coq(seen))
 	parts := []string{sc.Kind}
+	if debugMode {
+		parts[0] = "debug-mode:" + sc.Kind
+		st.Count("mode:debug.SetEnabled(true)")
+	} else {
+		st.Count("mode:default")
+	}
 	blocked := false
 	for _, s := range sc.Scripts {
 		parts = append(parts, vx.ListOf(s, op.coq))
@@ -930,7 +959,7 @@ func genCS(r *vx.Rng, cf *vx.CasesFile, st *vx.Stats, nRandom int) {
 
 func main() {
 	if len(os.Args) < 2 {
-		vx.Die("usage: hx-c17 scripted|free [--what sm|dag|cs] [--n N] [--thorough] --seed S --out cases.v --stats stats.json")
+		vx.Die("usage: hx-c17 scripted|free [--what sm|dag|cs] [--n N] [--thorough] [--debug] [--same-as ref.v] --seed S --out cases.v --stats stats.json")
 	}
 	fs := flag.NewFlagSet(os.Args[1], flag.ExitOnError)
 	what := fs.String("what", "sm", "")
@@ -939,11 +968,22 @@ func main() {
 	seed := fs.Uint64("seed", 1, "")
 	out := fs.String("out", "cases.v", "")
 	stats := fs.String("stats", "stats.json", "")
+	dbg := fs.Bool("debug", false, "run everything with debug.SetEnabled(true)")
+	sameAs := fs.String("same-as", "", "cases file of the same generator run in the other mode: when this run's cases are textually identical, no cases file is written (the Coq evaluation of the reference covers them)")
 	_ = fs.Parse(os.Args[2:])
 	r := vx.NewRng(*seed)
+	modeText := "default mode (debug disabled)"
+	started := time.Now()
+	if *dbg {
+		// before any goroutine is started: the flag and os.Stdout are process-global
+		stdoutCapture = startCapture()
+		debug.SetEnabled(true)
+		debugMode = true
+		modeText = "debug.SetEnabled(true) (deadlock-detection mode of runtime/debug)"
+	}
 	switch os.Args[1] {
 	case "scripted":
-		st := vx.NewStats("scripted arrival orders of 2-4 goroutines x 1-4 operations on one StarvingMutex / a DAGMutex with 1-3 entities / a Counter / a Stack (exhaustive orders for the small script sets, seeded random otherwise, incl. misuse scripts); one evaluation = one case = one arrival order with the observation after every arrival; distinct = distinct (scripts, order); non-trivial = at least one operation was parked at some quiescent point")
+		st := vx.NewStats("scripted arrival orders of 2-4 goroutines x 1-4 operations on one StarvingMutex / a DAGMutex with 1-3 entities / a Counter / a Stack (exhaustive orders for the small script sets, seeded random otherwise, incl. misuse scripts), every family in the default mode and again with debug.SetEnabled(true); one evaluation = one case = one arrival order in one mode with the observation after every arrival; distinct = distinct (mode, scripts, order); non-trivial = at least one operation was parked at some quiescent point")
 		cf := &vx.CasesFile{
 			Header: "From Coq Require Import ZArith List.\nFrom Verif.C17_Sync Require Import Model Corr.\nImport ListNotations.\n",
 			Type:   "case",
@@ -957,15 +997,39 @@ func main() {
 		default:
 			genCS(r, cf, st, *n)
 		}
+		if c := stdoutCapture; c != nil && stalls == 0 {
+			// no scripted wait comes near debug.DeadlockDetectionTimeout, except the calls that were left parked for good
+			if k := c.reports(); k > abandoned || k > 0 && time.Since(started) < debug.DeadlockDetectionTimeout {
+				st.Fail(map[string]any{"sig": "", "kind": "detector", "mode": modeText, "why": fmt.Sprintf("%d deadlock report(s) printed %v after the start, debug.DeadlockDetectionTimeout=%v, %d call(s) were left parked by scenarios that end blocked; no other scripted operation waited that long", k, time.Since(started), debug.DeadlockDetectionTimeout, abandoned), "output": c.text(2000)})
+			}
+		}
 		if err := cf.Write(*out); err != nil {
 			vx.Die("%v", err)
+		}
+		if *sameAs != "" {
+			// the scripted runner is deterministic (quiescence is decided from ticket counters), and the model does not
+			// know the mode: identical observations need no second Coq evaluation; any difference is judged by Coq
+			a, err1 := os.ReadFile(*out)
+			b, err2 := os.ReadFile(*sameAs)
+			if err1 == nil && err2 == nil && string(a) == string(b) {
+				_ = os.Remove(*out)
+				st.Hist["cases-textually-identical-to-the-default-mode-run(covered-by-its-Coq-evaluation)"] += cf.Len()
+			} else {
+				st.Hist["cases-differing-from-the-default-mode-run(evaluated-in-Coq)"] += cf.Len()
+			}
 		}
 		if err := st.Write(*stats); err != nil {
 			vx.Die("%v", err)
 		}
 	case "free":
-		st := vx.NewStats("free-running contention (holder-set monitors, stall watchdog), misuse under recover, PopOrWait window through the yield hook; one evaluation = one run")
+		st := vx.NewStats("free-running contention (holder-set monitors, stall watchdog), misuse under recover, PopOrWait window through the yield hook, in the default mode and again with debug.SetEnabled(true) (+ directed deadlock-detector cases: short waits are not reported, a long wait is reported once and still granted); one evaluation = one run in one mode")
+		if debugMode && !raceBuild {
+			detectorCases(st, stdoutCapture)
+		}
 		freeRuns(r, st, *n)
+		if !debugMode {
+			toggleCases(st)
+		}
 		if err := st.Write(*stats); err != nil {
 			vx.Die("%v", err)
 		}
